@@ -1,8 +1,13 @@
 ------------------------------- MODULE BufRing ------------------------------
-(* ring.Buffered as a plain FIFO queue of non-nil values plus a capacity.    *)
+(* ring.Buffered as a plain FIFO queue of pointers plus a capacity.  Elements *)
+(* are numbers >= 0 (a non-nil pointer, written as the number it points to,  *)
+(* which may be 0) or BNIL = -1 (a nil pointer: AppendBack(nil) is an element *)
+(* like any other - it counts in Len, is visited by Range and has to be      *)
+(* removed like the others; whether the queue is empty is decided by Len,    *)
+(* never by the value in front).                                             *)
 (* NewBuffered(initialSize, bufferSize): both default to 1 when less than 1. *)
 (* AppendBack adds at the back (capacity grows by the buffer size when the   *)
-(* ring is full); Front is the first value (nil = 0 when there is none);     *)
+(* ring is full); Front is the first value (nil when there is none);     *)
 (* RemoveFront removes the first value and returns the next one (nil when    *)
 (* the queue became empty) and the capacity shrinks by the buffer size when  *)
 (* more than twice the buffer size is free; Len; Range visits the values in  *)
@@ -12,7 +17,7 @@
 (* (it cannot be observed through the API).                                  *)
 EXTENDS Integers, Sequences
 
-BNIL == 0
+BNIL == 0 - 1
 AtLeast1(x) == IF x < 1 THEN 1 ELSE x
 BMin(a, b) == IF a < b THEN a ELSE b
 BInit(isz, bsz) == [q |-> << >>, cap |-> AtLeast1(isz), bs |-> AtLeast1(bsz)]
